@@ -947,30 +947,33 @@ Proof. destruct o; simpl; try discriminate; auto. Qed.
 Lemma effect_is_reply o e : effect o = Some e -> exists cl st r, o = OReply cl st r (Some e).
 Proof. destruct o; simpl; try discriminate. intros ->. eauto. Qed.
 
-Lemma coa_step_g_effect rej cfg now src bus raw e :
-  effect (coa_step_g md5raw fl rej cfg now src bus raw) = Some e ->
+Lemma coa_step_g_effect rej orep cfg now src bus raw e :
+  effect (coa_step_g md5raw fl rej orep cfg now src bus raw) = Some e ->
   effect (coa_step md5raw fl cfg now src bus raw) = Some e.
 Proof.
-  unfold coa_step_g. destruct (rej && ma_irregular (truncate raw) && reached_worker _)%bool; [|auto].
-  destruct (coa_step md5raw fl cfg now src bus raw); simpl; discriminate.
+  unfold coa_step_g. destruct (rej && ma_irregular (truncate raw) && reached_worker _)%bool.
+  - destruct (coa_step md5raw fl cfg now src bus raw); simpl; discriminate.
+  - destruct (coa_step md5raw fl cfg now src bus raw) as [|cl st|cl|cl st m ev]; auto.
+    destruct orep as [r|]; auto. destruct (find_client 0 (clients cfg) src) as [[i c]|]; auto.
+    destruct (reply_equiv md5raw (c_secret c) (sub 4 16 raw) m r); auto.
 Qed.
 
-Lemma effect_has_key rej cfg now src bus raw e :
-  effect (coa_step_g md5raw fl rej cfg now src bus raw) = Some e -> exists k, dedup_key cfg src raw = Some k.
+Lemma effect_has_key rej orep cfg now src bus raw e :
+  effect (coa_step_g md5raw fl rej orep cfg now src bus raw) = Some e -> exists k, dedup_key cfg src raw = Some k.
 Proof.
   intros H. apply coa_step_g_effect in H. revert H.
   unfold coa_step, dedup_key. destruct (find_client 0 (clients cfg) src) as [[cl c]|]; [eauto|discriminate].
 Qed.
 
 (* a known key takes no effect *)
-Lemma step_known_no_effect rej cfg now src bus raw seen sec k r :
+Lemma step_known_no_effect rej orep cfg now src bus raw seen sec k r :
   dedup_key cfg src raw = Some (sec, k) -> cache_find sec k seen = Some r ->
-  effect (fst (coa_step_st md5raw fl rej cfg now src bus raw seen)) = None.
+  effect (fst (coa_step_st md5raw fl rej orep cfg now src bus raw seen)) = None.
 Proof.
   intros Hk Hf. unfold coa_step_st. rewrite Hdd, Hk, Hf. simpl andb.
-  destruct (reached_worker (coa_step_g md5raw fl rej cfg now src bus raw)) eqn:Hr.
-  - destruct (coa_step_g md5raw fl rej cfg now src bus raw); reflexivity.
-  - simpl. destruct (effect (coa_step_g md5raw fl rej cfg now src bus raw)) eqn:He; [|reflexivity].
+  destruct (reached_worker (coa_step_g md5raw fl rej orep cfg now src bus raw)) eqn:Hr.
+  - destruct (coa_step_g md5raw fl rej orep cfg now src bus raw); reflexivity.
+  - simpl. destruct (effect (coa_step_g md5raw fl rej orep cfg now src bus raw)) eqn:He; [|reflexivity].
     apply effect_reached in He. congruence.
 Qed.
 
@@ -979,33 +982,33 @@ Lemma cache_find_cons sec k c sec' k' r' :
 Proof. simpl. destruct (beq sec sec' && beq k k')%bool; [discriminate|auto]. Qed.
 
 (* the cache only grows *)
-Lemma step_monotone rej cfg now src bus raw seen sec k :
+Lemma step_monotone rej orep cfg now src bus raw seen sec k :
   cache_find sec k seen <> None ->
-  cache_find sec k (snd (coa_step_st md5raw fl rej cfg now src bus raw seen)) <> None.
+  cache_find sec k (snd (coa_step_st md5raw fl rej orep cfg now src bus raw seen)) <> None.
 Proof.
   intros H. unfold coa_step_st. destruct (f_dedup fl && reached_worker _)%bool; [|exact H].
   destruct (dedup_key cfg src raw) as [[s1 k1]|]; [|exact H].
   destruct (cache_find s1 k1 seen); [exact H|].
-  destruct (coa_step_g md5raw fl rej cfg now src bus raw); try exact H. simpl snd. apply cache_find_cons; exact H.
+  destruct (coa_step_g md5raw fl rej orep cfg now src bus raw); try exact H. simpl snd. apply cache_find_cons; exact H.
 Qed.
 
 (* a step that takes effect leaves its key in the cache *)
-Lemma step_effect_remembered rej cfg now src bus raw seen e sec k :
-  effect (fst (coa_step_st md5raw fl rej cfg now src bus raw seen)) = Some e ->
+Lemma step_effect_remembered rej orep cfg now src bus raw seen e sec k :
+  effect (fst (coa_step_st md5raw fl rej orep cfg now src bus raw seen)) = Some e ->
   dedup_key cfg src raw = Some (sec, k) ->
-  cache_find sec k (snd (coa_step_st md5raw fl rej cfg now src bus raw seen)) <> None.
+  cache_find sec k (snd (coa_step_st md5raw fl rej orep cfg now src bus raw seen)) <> None.
 Proof.
   unfold coa_step_st. rewrite Hdd. simpl andb. intros He Hk. rewrite Hk in *.
-  destruct (reached_worker (coa_step_g md5raw fl rej cfg now src bus raw)) eqn:Hr.
+  destruct (reached_worker (coa_step_g md5raw fl rej orep cfg now src bus raw)) eqn:Hr.
   - destruct (cache_find sec k seen) as [c|] eqn:Hf.
-    + exfalso. destruct (coa_step_g md5raw fl rej cfg now src bus raw); simpl in He; discriminate.
-    + destruct (coa_step_g md5raw fl rej cfg now src bus raw) eqn:Ho; simpl in He; try discriminate.
+    + exfalso. destruct (coa_step_g md5raw fl rej orep cfg now src bus raw); simpl in He; discriminate.
+    + destruct (coa_step_g md5raw fl rej orep cfg now src bus raw) eqn:Ho; simpl in He; try discriminate.
       simpl snd. simpl. rewrite !beq_refl. discriminate.
   - simpl in He. apply effect_reached in He. congruence.
 Qed.
 
 Definition key_of (cfg : coacfg) (i : coa_input) : option (bytes * bytes) :=
-  let '(_, src, _, raw, _) := i in dedup_key cfg src raw.
+  let '(_, src, _, raw, _, _) := i in dedup_key cfg src raw.
 
 (* once a key is in the cache, no later datagram with that key takes effect *)
 Lemma run_known_no_effect cfg : forall ins seen sec k j i,
@@ -1013,14 +1016,14 @@ Lemma run_known_no_effect cfg : forall ins seen sec k j i,
   nth_error ins j = Some i -> key_of cfg i = Some (sec, k) ->
   forall o, nth_error (coa_run md5raw fl cfg seen ins) j = Some o -> effect o = None.
 Proof.
-  induction ins as [|[[[[now src] bus] raw] rej] r IH]; intros seen sec k j i Hs Hn Hk o Ho; [destruct j; discriminate|].
-  simpl in Ho. destruct (coa_step_st md5raw fl rej cfg now src bus raw seen) as [o1 seen1] eqn:Hst.
+  induction ins as [|[[[[[now src] bus] raw] rej] orep] r IH]; intros seen sec k j i Hs Hn Hk o Ho; [destruct j; discriminate|].
+  simpl in Ho. destruct (coa_step_st md5raw fl rej orep cfg now src bus raw seen) as [o1 seen1] eqn:Hst.
   destruct j as [|j]; simpl in Hn, Ho.
   - inversion Hn; subst i. inversion Ho; subst o. simpl in Hk.
     destruct (cache_find sec k seen) as [c|] eqn:Hf; [|congruence].
-    pose proof (step_known_no_effect rej cfg now src bus raw seen sec k c Hk Hf) as H. rewrite Hst in H. exact H.
+    pose proof (step_known_no_effect rej orep cfg now src bus raw seen sec k c Hk Hf) as H. rewrite Hst in H. exact H.
   - eapply (IH seen1 sec k j i); eauto.
-    pose proof (step_monotone rej cfg now src bus raw seen sec k Hs) as H. rewrite Hst in H. exact H.
+    pose proof (step_monotone rej orep cfg now src bus raw seen sec k Hs) as H. rewrite Hst in H. exact H.
 Qed.
 
 (* single execution: in any history of datagrams, two datagrams with the same key (same client secret, same
@@ -1033,14 +1036,14 @@ Lemma single_execution cfg : forall ins seen j1 j2 i1 i2 o1 o2 key,
   nth_error (coa_run md5raw fl cfg seen ins) j2 = Some o2 ->
   effect o1 <> None -> effect o2 = None.
 Proof.
-  induction ins as [|[[[[now src] bus] raw] rej] r IH]; intros seen j1 j2 i1 i2 o1 o2 [sec k] Hlt H1 H2 K1 K2 O1 O2 He;
+  induction ins as [|[[[[[now src] bus] raw] rej] orep] r IH]; intros seen j1 j2 i1 i2 o1 o2 [sec k] Hlt H1 H2 K1 K2 O1 O2 He;
     [destruct j1; discriminate|].
-  simpl in O1, O2. destruct (coa_step_st md5raw fl rej cfg now src bus raw seen) as [oo seen1] eqn:Hst.
+  simpl in O1, O2. destruct (coa_step_st md5raw fl rej orep cfg now src bus raw seen) as [oo seen1] eqn:Hst.
   destruct j2 as [|j2]; [lia|]. simpl in H2, O2.
   destruct j1 as [|j1]; simpl in H1, O1.
   - inversion H1; subst i1. inversion O1; subst oo. simpl in K1.
     destruct (effect o1) as [e|] eqn:Heo; [|congruence].
-    pose proof (step_effect_remembered rej cfg now src bus raw seen e sec k) as Hr. rewrite Hst in Hr.
+    pose proof (step_effect_remembered rej orep cfg now src bus raw seen e sec k) as Hr. rewrite Hst in Hr.
     specialize (Hr Heo K1).
     eapply (run_known_no_effect cfg r seen1 sec k j2 i2); eauto.
   - eapply (IH seen1 j1 j2 i1 i2 o1 o2 (sec, k)); eauto. lia.
@@ -1051,16 +1054,126 @@ End W.
 (* ------------------------------------------------------------------ admissible rejections never add effects *)
 Section X.
 Variable md5raw : bytes -> bytes.
-Lemma coa_step_g_effect_any fl rej cfg now src bus raw e :
-  effect (coa_step_g md5raw fl rej cfg now src bus raw) = Some e ->
+Lemma coa_step_g_effect_any fl rej orep cfg now src bus raw e :
+  effect (coa_step_g md5raw fl rej orep cfg now src bus raw) = Some e ->
   effect (coa_step md5raw fl cfg now src bus raw) = Some e.
 Proof.
-  unfold coa_step_g. destruct (rej && ma_irregular (truncate raw) && reached_worker _)%bool; [|auto].
-  destruct (coa_step md5raw fl cfg now src bus raw); simpl; discriminate.
+  unfold coa_step_g. destruct (rej && ma_irregular (truncate raw) && reached_worker _)%bool.
+  - destruct (coa_step md5raw fl cfg now src bus raw); simpl; discriminate.
+  - destruct (coa_step md5raw fl cfg now src bus raw) as [|cl st|cl|cl st m ev]; auto.
+    destruct orep as [r|]; auto. destruct (find_client 0 (clients cfg) src) as [[i c]|]; auto.
+    destruct (reply_equiv md5raw (c_secret c) (sub 4 16 raw) m r); auto.
 Qed.
-(* ... and on a request with a regular Message-Authenticator the choice does not exist *)
+(* ... and on a request with a regular Message-Authenticator the refusal choice does not exist *)
 Lemma coa_step_g_regular fl rej cfg now src bus raw :
   ma_irregular (truncate raw) = false ->
-  coa_step_g md5raw fl rej cfg now src bus raw = coa_step md5raw fl cfg now src bus raw.
-Proof. intros H. unfold coa_step_g. rewrite H, andb_false_r. reflexivity. Qed.
+  coa_step_g md5raw fl rej None cfg now src bus raw = coa_step md5raw fl cfg now src bus raw.
+Proof.
+  intros H. unfold coa_step_g. rewrite H, andb_false_r. simpl.
+  destruct (coa_step md5raw fl cfg now src bus raw); reflexivity.
+Qed.
+(* whatever reply the generalised step emits verifies, provided the model's own reply does: a substituted reply was
+   accepted by [reply_equiv], which includes both verifications and regularity *)
+Lemma coa_step_g_reply_verifies fl rej orep cfg now src bus raw cl st r ev :
+  coa_step_g md5raw fl rej orep cfg now src bus raw = OReply cl st r ev ->
+  (exists m, coa_step md5raw fl cfg now src bus raw = OReply cl st m ev /\
+             (r = m \/ exists i c, find_client 0 (clients cfg) src = Some (i, c) /\
+                                    resp_auth_ok md5raw (c_secret c) (sub 4 16 raw) r = true /\
+                                    ma_resp_ok md5raw (c_secret c) (sub 4 16 raw) r = true /\
+                                    ma_irregular r = false)).
+Proof.
+  unfold coa_step_g. destruct (rej && ma_irregular (truncate raw) && reached_worker _)%bool.
+  - destruct (coa_step md5raw fl cfg now src bus raw); discriminate.
+  - destruct (coa_step md5raw fl cfg now src bus raw) as [|cl' st'|cl'|cl' st' m ev'] eqn:Ho; try discriminate.
+    destruct orep as [r'|]; [|intros H; inversion H; subst; eauto].
+    destruct (find_client 0 (clients cfg) src) as [[i c]|] eqn:Hc; [|intros H; inversion H; subst; eauto].
+    destruct (reply_equiv md5raw (c_secret c) (sub 4 16 raw) m r') eqn:He; [|intros H; inversion H; subst; eauto].
+    intros H; inversion H; subst. exists m. split; [reflexivity|]. right. exists i, c. split; [reflexivity|].
+    unfold reply_equiv in He. destruct (parse m); [|discriminate]. destruct (parse r); [|discriminate].
+    repeat (apply andb_true_iff in He; destruct He as [He ?]).
+    repeat split; auto. apply negb_true_iff. assumption.
+Qed.
 End X.
+
+(* ------------------------------------------------------------------ replies in ANY attribute order verify *)
+Section Y.
+Variable md5raw : bytes -> bytes.
+Notation md5 := (md5 md5raw).
+Notation hmac := (hmac md5raw).
+
+Lemma sign_reply_with_ma_verifies (secret reqauth : bytes) (code id : N) (pre post : list attr) :
+  length reqauth = 16%nat -> Forall (fun a => ma_like a = false) pre ->
+  let reply := sign_reply md5raw secret reqauth code id (pre ++ (80, zeros16) :: post) in
+  resp_auth_ok md5raw secret reqauth reply = true /\
+  ma_resp_ok md5raw secret reqauth reply = true /\
+  find_attr80 reply = Some (20 + length (enc_attrs pre) + 2)%nat.
+Proof.
+  intros Hra Hpre reply. unfold reply, sign_reply.
+  rewrite enc_attrs_app.
+  change (enc_attrs ((80, zeros16) :: post)) with ([80; 18] ++ zeros16 ++ enc_attrs post).
+  set (hdr := [code; id] ++ put16 (N.of_nat (20 + length (enc_attrs pre ++ [80; 18] ++ zeros16 ++ enc_attrs post)))).
+  assert (Hhdr : length hdr = 4%nat) by reflexivity.
+  set (off := (20 + length (enc_attrs pre) + 2)%nat).
+  pose (pk := fun a v : bytes => (hdr ++ a) ++ enc_attrs pre ++ [80; 18] ++ v ++ enc_attrs post).
+  assert (Hh20 : forall a, length a = 16%nat -> length (hdr ++ a) = 20%nat) by (intros a Ha; rewrite app_length; lia).
+  assert (Hfind : forall a v, length a = 16%nat -> length v = 16%nat -> find_attr80 (pk a v) = Some off)
+    by (intros a v Ha Hv; unfold pk; apply find80_ma; auto).
+  assert (Hassoc : forall a v, pk a v = ((hdr ++ a) ++ enc_attrs pre ++ [80; 18]) ++ v ++ enc_attrs post)
+    by (intros a v; unfold pk; rewrite <- !app_assoc; reflexivity).
+  assert (Hoff : forall a, length a = 16%nat -> length ((hdr ++ a) ++ enc_attrs pre ++ [80; 18]) = off)
+    by (intros a Ha; rewrite !app_length; rewrite Hhdr, Ha; simpl length; unfold off; lia).
+  assert (Hsetv : forall a v v', length v = 16%nat -> length v' = 16%nat -> length a = 16%nat ->
+                                 set_at off (pk a v) v' = pk a v').
+  { intros a v v' Hv Hv' Ha. rewrite !Hassoc. apply set_at_app; [apply Hoff; exact Ha|lia]. }
+  assert (Hseta : forall a a' v, length a = 16%nat -> length a' = 16%nat -> set_at 4 (pk a v) a' = pk a' v).
+  { intros a a' v Ha Ha'. unfold pk. rewrite <- !app_assoc. rewrite set_at_app; [reflexivity|exact Hhdr|lia]. }
+  assert (Hsubv : forall a v, length a = 16%nat -> length v = 16%nat -> sub off 16 (pk a v) = v).
+  { intros a v Ha Hv. rewrite Hassoc. apply sub_app; [apply Hoff; exact Ha|exact Hv]. }
+  assert (He1 : hdr ++ reqauth ++ enc_attrs pre ++ [80; 18] ++ zeros16 ++ enc_attrs post = pk reqauth zeros16)
+    by (unfold pk; rewrite <- !app_assoc; reflexivity).
+  rewrite He1, (Hfind reqauth zeros16 Hra eq_refl).
+  rewrite (Hsetv reqauth zeros16 zeros16 eq_refl eq_refl Hra).
+  set (mac := hmac secret (pk reqauth zeros16)).
+  assert (Hmac : length mac = 16%nat) by apply hmac_length.
+  rewrite (Hsetv reqauth zeros16 mac eq_refl Hmac Hra).
+  set (ra := md5 (pk reqauth mac ++ secret)).
+  assert (Hral : length ra = 16%nat) by apply md5_length.
+  rewrite (Hseta reqauth ra mac Hra Hral).
+  split; [|split].
+  - unfold resp_auth_ok.
+    replace (firstn 4 (pk ra mac)) with hdr
+      by (unfold pk; rewrite <- !app_assoc; symmetry; apply firstn_app_exact; exact Hhdr).
+    replace (skipn 20 (pk ra mac)) with (enc_attrs pre ++ [80; 18] ++ mac ++ enc_attrs post)
+      by (unfold pk; symmetry; apply skipn_app_exact; apply Hh20; exact Hral).
+    replace (sub 4 16 (pk ra mac)) with ra
+      by (unfold pk; rewrite <- !app_assoc; symmetry; apply sub_app; [exact Hhdr|exact Hral]).
+    unfold ra, pk. rewrite <- !app_assoc. apply beq_refl.
+  - unfold ma_resp_ok. rewrite (Hfind ra mac Hral Hmac).
+    rewrite (Hsetv ra mac zeros16 Hmac eq_refl Hral), (Hseta ra reqauth zeros16 Hral Hra).
+    rewrite (Hsubv ra mac Hral Hmac). apply beq_refl.
+  - apply Hfind; auto.
+Qed.
+
+Lemma sign_reply_without_ma_verifies (secret reqauth : bytes) (code id : N) (attrs : list attr) :
+  length reqauth = 16%nat -> Forall (fun a => ma_like a = false) attrs ->
+  let reply := sign_reply md5raw secret reqauth code id attrs in
+  resp_auth_ok md5raw secret reqauth reply = true /\ ma_resp_ok md5raw secret reqauth reply = true.
+Proof.
+  intros Hra Hpre reply. unfold reply, sign_reply.
+  set (hdr := [code; id] ++ put16 (N.of_nat (20 + length (enc_attrs attrs)))).
+  assert (Hhdr : length hdr = 4%nat) by reflexivity.
+  rewrite (app_assoc hdr reqauth), find80_none; auto; [|rewrite app_length; lia].
+  rewrite <- app_assoc.
+  set (ra := md5 ((hdr ++ reqauth ++ enc_attrs attrs) ++ secret)).
+  assert (Hral : length ra = 16%nat) by apply md5_length.
+  replace (set_at 4 (hdr ++ reqauth ++ enc_attrs attrs) ra) with (hdr ++ ra ++ enc_attrs attrs)
+    by (symmetry; apply set_at_app; [exact Hhdr|lia]).
+  split.
+  - unfold resp_auth_ok. rewrite (firstn_app_exact hdr _ 4 Hhdr).
+    replace (skipn 20 (hdr ++ ra ++ enc_attrs attrs)) with (enc_attrs attrs)
+      by (rewrite app_assoc; symmetry; apply skipn_app_exact; rewrite app_length; lia).
+    rewrite (sub_app hdr ra _ 4 16 Hhdr Hral). unfold ra. rewrite <- !app_assoc. apply beq_refl.
+  - unfold ma_resp_ok. rewrite app_assoc, find80_none; auto. rewrite app_length; lia.
+Qed.
+
+End Y.
